@@ -33,6 +33,17 @@ def script_of(plan):
     L.append("    frame z1")
     L.append("      enter")
     L.append("        bid stop all")
+    if plan.get("restart"):
+        L.append("  framer zrst be active in back first r0")
+        L.append("    frame r0")
+        L.append("      repeat %d" % plan["restart"])
+        L.append("    frame r1")
+        L.append("      enter")
+        L.append("        bid stop lg")
+        L.append("      repeat 2")
+        L.append("    frame r2")
+        L.append("      enter")
+        L.append("        bid start lg")
     lg = "  logger lg to /simlog"
     if plan.get("lperiod"):
         lg += " at %s" % plan["lperiod"]
@@ -68,7 +79,7 @@ class C22(Check):
     components["stub"] = COMPONENTS["stub"] + ["file system (substrate.fs.SimFS, no faults)", "calendar (log directory name)"]
     assumptions = ["'update': at each logger run after the first a record is due iff some loggee was updated after the previous record in execution order (not stamp order)",
                    "the final log pass made when the logger is stopped counts as a logger run"]
-    required_probes = ["update-after-logger-same-tick", "same-value-update", "logger-period", "streak", "deck"]
+    required_probes = ["update-after-logger-same-tick", "same-value-update", "logger-period", "streak", "deck", "logger-restarted"]
     quick_runs = 6000
     thorough_runs = 300000
     shrink_fields = ["hist0", "hist1"]
@@ -102,7 +113,8 @@ class C22(Check):
                         h.append([t, path, field, val])
             return h
         return {"P": P, "ticks": ticks, "rule": rule, "fields": g.choice([None, "a", "two"]),
-                "lperiod": g.choice([None, None, "0.5", "0.75"]), "hist0": hist(), "hist1": hist()}
+                "lperiod": g.choice([None, None, "0.5", "0.75"]), "hist0": hist(), "hist1": hist(),
+                "restart": g.randint(1, max(1, ticks - 3)) if rule in ("always", "once", "never") and g.random() < 0.35 else None}
 
     def execute(self, plan):
         out = Outcome()
@@ -152,18 +164,28 @@ class C22(Check):
             got = [tuple(l.split("\t")) for l in lines]
             want = self._expected(plan, res, rule, cols, fields, out)
             tr.add("records", got)
-            if want is not None and got != want:
+            causes = dict(getattr(self, "_causes", {}))
+            guard = 0
+            while want is not None and got != want and guard < 50:
+                guard += 1
                 k = 0
                 while k < min(len(got), len(want)) and got[k] == want[k]:
                     k += 1
+                cause = causes.get(k)
+                if cause and k < len(want) and got[k:k + 1] != want[k:k + 1]:
+                    # the specific, recorded shape: report it, then drop the promised record and keep comparing the rest
+                    bad("missing-record (%s)" % cause, "record %d promised %r is not in the file (file %d records)" % (k, want[k], len(got)))
+                    del want[k]
+                    causes = dict(((i - 1 if i > k else i), c) for i, c in causes.items() if i != k)
+                    continue
                 kind = "missing-record" if len(got) < len(want) else ("extra-record" if len(got) > len(want) else "wrong-record")
-                cause = getattr(self, "_causes", {}).get(k)
-                if kind == "missing-record" and cause and got[k:k + 1] != want[k:k + 1]:
-                    kind = "missing-record (%s)" % cause
                 bad(kind, "first difference at record %d: file has %r, the rule promises %r (file %d records, promised %d)"
                     % (k, got[k:k + 2], want[k:k + 2], len(got), len(want)))
+                break
         if plan.get("lperiod"):
             out.probe("logger-period")
+        if plan.get("restart"):
+            out.probe("logger-restarted")
         if rule in ("streak", "deck"):
             out.probe(rule)
         out.digest = tr.digest()
